@@ -6,6 +6,7 @@ import sys
 
 
 def run(ctx):
+    ctx.level_default = "exploration"
     thorough = ctx.tier == "thorough"
     if ctx.replay:
         ctx.validate("", "Trace_Wire", "Trace_Wire.cfg", ctx.replay, shards=1, label="replay (recorded trace)", extra_env={"JUDGE": "C10"}, stack="64m")
